@@ -186,6 +186,53 @@ def check_shift(ctx, kind, c, desc, sdesc):
             ctx.violation("shift_roundtrip", sig, case, impl.sstr(r), impl.sstr(back))
 
 
+def check_window_shift(ctx, kind, c, desc, sdesc):
+    """The same recurrence carrying a min_point / max_point keyword (a window that contains the anchor, and one that
+    excludes it): the stated identities only - same repetitions and interval after the shift, either operand order,
+    (r + d) - d == r with equal hashes. What the window does to iteration is not defined by any property and not judged."""
+    if recur.is_nominal(sdesc) or not (pools.exact_domain(desc["anchor"]["t"], sdesc) and
+                                       pools.exact_domain(desc["anchor"]["t"], desc["dur"])):
+        return
+    fmt, n, ddesc = desc["fmt"], desc["n"], desc["dur"]
+    try:
+        r0, a, d, second = recur.build(impl, desc)
+        far = impl.build_duration({"days": 400})
+        lo, hi = a - far, a + far
+    except BaseException:
+        return
+    sh = impl.build_duration(sdesc)
+    for wname, kw in (("min_before", {"min_point": lo}), ("max_after", {"max_point": hi}), ("min_after", {"min_point": hi}),
+                      ("max_before", {"max_point": lo}), ("both", {"min_point": lo, "max_point": hi})):
+        case = (lambda wname=wname: {"kind": "window_shift", "mode": kind, "r": desc, "shift": sdesc, "window": wname})
+        sig = {"fmt": fmt, "single": n == 1 or recur.is_zero(ddesc), "window": wname, "bounded": n is not None}
+        try:
+            if fmt == 3:
+                r = impl.TimeRecurrence(repetitions=n, start_point=a, duration=d, **kw)
+            elif fmt == 4:
+                r = impl.TimeRecurrence(repetitions=n, end_point=a, duration=d, **kw)
+            else:
+                r = impl.TimeRecurrence(repetitions=n, start_point=a, end_point=second, **kw)
+            hash(r)
+        except BaseException:
+            ctx.count("not_buildable(C12's business)")
+            return
+        ok, s = _guard(ctx, sig, case, "r + d", lambda: r + sh)
+        if not ok:
+            continue
+        ctx.traces += 1
+        o0, o1 = _obs(c, r), _obs(c, s)
+        if o1[0] != o0[0]:
+            ctx.violation("shift_keeps_repetitions", sig, case, o0[0], o1[0])
+        if o1[3] != o0[3]:
+            ctx.violation("shift_keeps_interval", sig, case, str(o0[3]), str(o1[3]))
+        ok, s2 = _guard(ctx, sig, case, "d + r", lambda: sh + r)
+        if ok and (not (s2 == s) or hash(s2) != hash(s)):
+            ctx.violation("shift_either_order", sig, case, impl.sstr(s), impl.sstr(s2))
+        ok, back = _guard(ctx, sig, case, "(r + d) - d", lambda: s - sh)
+        if ok and (not (back == r) or back != r or hash(back) != hash(r) or _obs(c, back) != o0):
+            ctx.violation("shift_roundtrip", sig, case, impl.sstr(r) + " " + wname, impl.sstr(back))
+
+
 def check_text(ctx, kind, c, desc):
     if recur.mixed_sign(desc["dur"]) and not (desc["n"] == 1 or recur.is_zero(desc["dur"])):
         return  # no text form for a mixed-sign interval
@@ -348,6 +395,8 @@ def run_unit(unit, ctx):
                     if n in (None, 1, 3) and anchor["t"][1] != 24:
                         for sd in NOMINAL_SHIFTS:
                             check_shift(ctx, kind, c, desc, sd)
+                    if n in (None, 1, 3):
+                        check_window_shift(ctx, kind, c, desc, SHIFTS[2] if fmt == 4 else SHIFTS[1])
                     check_text(ctx, kind, c, desc)
     else:
         if anchor["t"][0] != "hms":
@@ -365,6 +414,8 @@ def replay_case(case, ctx):
     c = M.cal(kind)
     if case["kind"] == "shift":
         check_shift(ctx, kind, c, case["r"], case["shift"])
+    elif case["kind"] == "window_shift":
+        check_window_shift(ctx, kind, c, case["r"], case["shift"])
     elif case["kind"] == "text":
         check_text(ctx, kind, c, case["r"])
     else:
